@@ -838,6 +838,9 @@ class Interp(Engine):
                     return
                 yield st, attr
                 return
+            if h.kind == 'stream' and name in ('data', 'pos'):
+                yield st, h.fields[name]       # the stream's contents and cursor (specifications only)
+                return
             yield st, BuiltinMethod(v, name)
             return
         if isinstance(v, V):
@@ -896,6 +899,13 @@ class Interp(Engine):
     def pkbalance_ty(self):
         return TUPLE(INT, LIST(CLS('OutputReference'))) if 'OutputReference' in self.reg.classes else None
 
+    @staticmethod
+    def field_term(ci, name, t):
+        """accessor applied to a term; a field of a constructor application is that argument (keeps terms small)"""
+        if z3.is_app(t) and t.decl().eq(ci.ctor):
+            return t.arg([f for f, _ in ci.fields].index(name))
+        return ci.acc[name](t)
+
     def cls_getattr(self, v, name, st, e=None):
         root = self.reg.root_of(v.ty.args[0])
         cis = self.reg.concrete(root)
@@ -911,8 +921,15 @@ class Interp(Engine):
                 outs = []
                 for ci in cis:
                     if name in ci.acc:
-                        outs.append((ci.recog(v.t), V(ci.acc[name](v.t), dict(ci.fields)[name])))
+                        outs.append((ci.recog(v.t), V(self.field_term(ci, name, v.t), dict(ci.fields)[name])))
                 if not outs:
+                    # a method that every concrete class inherits from the same place (serialize, deserialize)
+                    attrs = {id(inspect_getattr_static(ci.pyclass, name)): inspect_getattr_static(ci.pyclass, name) for ci in cis}
+                    if len(attrs) == 1:
+                        (attr,) = attrs.values()
+                        if attr is not None and callable(attr) and not isinstance(attr, (classmethod, staticmethod, property)):
+                            yield st, BoundMethod(v, attr, cis[0].pyclass)
+                            return
                     raise Outside("no field %s in hierarchy %s" % (name, root))
                 r = outs[-1][1]
                 t = r.t
@@ -928,7 +945,7 @@ class Interp(Engine):
             return
         ci = cis[0]
         if name in ci.acc:
-            yield st, V(ci.acc[name](v.t), dict(ci.fields)[name])
+            yield st, V(self.field_term(ci, name, v.t), dict(ci.fields)[name])
             return
         if name == '__class__':
             yield st, ci.pyclass
